@@ -357,16 +357,27 @@ func loadReal(b storage.ReadWriteBucket, m mod, tar bool) (class string, files m
 	if len(found) != 1 {
 		return "error:found/notfound inconsistent", nil
 	}
+	// every accessor must apply the same digest gate: either all succeed or all report the
+	// digest mismatch
 	fb, err := found[0].Bucket()
-	if err != nil {
+	_, depErr := found[0].DepModuleKeys()
+	_, yErr := found[0].V1Beta1OrV1BufYAMLObjectData()
+	_, lErr := found[0].V1Beta1OrV1BufLockObjectData()
+	isMismatch := func(e error) bool {
 		var dm *bufmodule.DigestMismatchError
-		if errors.As(err, &dm) {
+		return e != nil && errors.As(e, &dm)
+	}
+	if isMismatch(err) != isMismatch(depErr) || isMismatch(err) != isMismatch(yErr) || isMismatch(err) != isMismatch(lErr) {
+		return fmt.Sprintf("error:accessors-disagree: Bucket=%v DepModuleKeys=%v V1BufYAML=%v V1BufLock=%v", err, depErr, yErr, lErr), nil
+	}
+	if err != nil {
+		if isMismatch(err) {
 			return "mismatch", nil
 		}
 		return "error:" + err.Error(), nil
 	}
-	if _, err := found[0].DepModuleKeys(); err != nil {
-		return "error:deps:" + err.Error(), nil
+	if depErr != nil {
+		return "error:deps:" + depErr.Error(), nil
 	}
 	kvs, err := bk.WalkAll(ctx, fb, "")
 	if err != nil {
@@ -431,6 +442,8 @@ func (c caseCtx) judge(entry map[string]string, how string, expectHit *bool) str
 			c.fail("wrong-content-served", fmt.Sprintf("%s: load returned files %v but the key pins %v", how, keysOf(files), keysOf(c.m.files)), in)
 		}
 	case class == "miss" || class == "mismatch":
+	case strings.HasPrefix(class, "error:accessors-disagree"):
+		c.fail("accessor-skips-digest-check", fmt.Sprintf("%s: %s", how, class), in)
 	default:
 		c.fail("load-other-error", fmt.Sprintf("%s: load returned %s (neither not-cached, content, nor digest mismatch)", how, class), in)
 	}
